@@ -5,7 +5,7 @@ uninterpreted: each call returns a value made of fresh symbols indexed by the ca
 is logged.  The GSL ODE driver is summarised (Appendix B): apply / apply_fixed_step advance *t and
 invoke the system function on driver-owned buffers; the outcome (success / failure) is a choice."""
 from astdb import AnalysisBroken
-from interp import (ITE, Interp, Obj, Cell, Ptr, Region, Thrown, Unsupported, Opaque, NULL, UNDEF, FuncRef, OutOfBounds)
+from interp import (ITE, Cond, Interp, Obj, Cell, Ptr, Region, Thrown, Unsupported, Opaque, NULL, UNDEF, FuncRef, OutOfBounds)
 from kernels import SUV, make_suv
 from gslmodel import GslHooks
 from poly import Poly, CPoly
@@ -202,12 +202,24 @@ class SquidsHooks(GslHooks):
                     if nm in pt:
                         op = o
                         break
+                closure = None
                 if op is None:
-                    raise Unsupported('%s with predicate of type %s at %s' % (base, pt, it.loc(node)))
+                    pv = it.eval(args[2])
+                    if isinstance(pv, FuncRef) and pv.lam is not None:
+                        closure = pv  # a lambda: its body is interpreted on each adjacent pair (its comparisons go to the order oracle)
+                    else:
+                        raise Unsupported('%s with predicate of type %s at %s' % (base, pt, it.loc(node)))
             else:
                 op = '==' if base == 'std::adjacent_find' else None
+                closure = None
             for i in range(n - 1):
-                if base == 'std::adjacent_find':
+                if closure is not None:
+                    x, y = (vals[i], vals[i + 1]) if base == 'std::adjacent_find' else (vals[i + 1], vals[i])
+                    r = it.call_lambda_values(closure, [x, y])
+                    if isinstance(r, Cond):
+                        raise Unsupported('%s: predicate not decidable at %s' % (base, it.loc(node)))
+                    r = bool(r)
+                elif base == 'std::adjacent_find':
                     r = self.order.compare(op, vals[i], vals[i + 1])
                 else:
                     r = self.order.compare('<', vals[i + 1], vals[i]) if op is None else self.order.compare(op, vals[i + 1], vals[i])
@@ -414,20 +426,22 @@ class OrderOracle:
         return {'<': ra < rb, '>': ra > rb, '<=': ra <= rb, '>=': ra >= rb, '==': ra == rb, '!=': ra != rb}[op]
 
     def sorted(self, vals):
-        rs = [self.rank.get(self.sym(v)) for v in vals]
-        if any(r is None for r in rs):
-            raise Unsupported('sortedness of non-symbol values')
-        return all(rs[i] <= rs[i + 1] for i in range(len(rs) - 1))
+        for i in range(len(vals) - 1):
+            r = self.compare('<=', vals[i], vals[i + 1])
+            if r is None:
+                raise Unsupported('sortedness of values whose order is not decidable')
+            if not r:
+                return False
+        return True
 
     def bound(self, vals, v, lower):
-        rv = self.rank.get(self.sym(v))
-        if rv is None:
-            raise Unsupported('bound query for a non-symbol value %r' % (v,))
+        # lower_bound: first element not less than v; upper_bound: first element greater than v.  Decided by the order
+        # relation between symbols, or (values that are not plain symbols) on the concrete instance of the order
         for i, x in enumerate(vals):
-            rx = self.rank.get(self.sym(x))
-            if rx is None:
-                raise Unsupported('bound over non-symbol values')
-            if (lower and not (rx < rv)) or (not lower and rx > rv):
+            r = self.compare('<', x, v) if lower else self.compare('>', x, v)
+            if r is None:
+                raise Unsupported('bound over values whose order with %r is not decidable' % (v,))
+            if (lower and not r) or (not lower and r):
                 return i
         return len(vals)
 
